@@ -44,6 +44,7 @@ LAB = st.one_of(
     st.builds(lambda s: {"kind": "list_valued", "salt": s},
               st.integers(0, 5)),
     st.builds(lambda s: {"kind": "none_some", "salt": s}, st.integers(0, 5)),
+    st.builds(lambda s: {"kind": "falsy", "salt": s}, st.integers(0, 5)),
     st.builds(lambda k, s, m: {"kind": "dict_id2grp", "k": k, "salt": s,
                                "missing": m},
               st.sampled_from([1, 2, 3]), st.integers(0, 5), ops.MASK),
@@ -69,6 +70,9 @@ def label_of(lab, i, md):
         return ("L%d" % (h(i, lab["salt"]) % 2), "x")
     if k == "none_some":
         return None if h(i, lab["salt"]) % 2 else "kept"
+    if k == "falsy":
+        # falsy labels that are not None: 0, the empty string, an empty tuple
+        return [0, "", (), None, "x"][h(i, lab["salt"]) % 5]
     raise ValueError(k)
 
 
@@ -279,7 +283,7 @@ def check(case, rec):
         return
 
     # one-to-one collapse
-    if case["lab"]["kind"] in ("list_valued", "none_some"):
+    if case["lab"]["kind"] in ("list_valued", "none_some", "falsy"):
         rec.skip("label cannot become an ID")
         return
     if case["lab"]["kind"] == "md" and ref.md(axis) is None:
